@@ -729,7 +729,7 @@ def gen_adversarial(rnd):
     """Scripts built around cyclic / dangling / duplicate references."""
     g = Gen(rnd, 0.3)
     L = [['house', 'h1']]
-    k = rnd.randrange(12)
+    k = rnd.randrange(14)
     names = list(FRAMES)
     rnd.shuffle(names)
     n = rnd.randint(2, 5)
@@ -844,6 +844,37 @@ def gen_adversarial(rnd):
             L += [['framer', 'm%d' % i, 'be', 'moot'], ['frame', 'a']]
             tgt = i + 1 if rnd.random() < 0.7 else rnd.randrange(m + 1)
             L.append(['aux', 'm%d' % tgt, 'as', g.ch(['mine', 'c%d' % i])])
+    elif k == 11:   # lexically valid but structurally odd relative paths in every path position
+        odd = ['framer', 'frame', 'actor', 'me', 'framer.me', 'framer.zz', 'framer.main', 'framer.me.frame',
+               'framer.me.frame.me', 'framer.me.frame.zz.x', 'framer.me.frame.me.actor', 'framer.me.frame.me.actor.me',
+               'framer.me.frame.me.actor.me.x', 'framer.main.x', 'framer.main.frame.main.x', 'frame.main.x',
+               'frame.zz.x', 'frame.me', 'actor.me', 'actor.me.x', 'actor.zz.x', 'me.x', 'me.me', 'framer.me.actor.me.x',
+               'framer.fa.frame.a.x', 'framer.fb.frame.a.x', 'framer.me.state', 'framer.me.state.elapsed',
+               'framer.me.goal', 'x.', 'framer.', 'frame.', 'actor.', 'me.', 'framer.me.', 'framer.me.frame.', 'mine', 'main']
+        rel = [[], [], ['of', 'me'], ['of', 'framer'], ['of', 'frame'], ['of', 'actor'], ['of', 'frame', 'main'],
+               ['of', 'framer', 'main'], ['of', 'actor', 'me', 'of', 'frame', 'main'], ['of', 'frame', 'zz'],
+               ['of', 'framer', 'zz'], ['of', 'frame', 'a', 'of', 'framer', 'fb'], ['of', 'root']]
+        sched = g.ch(['active', 'aux', 'moot', 'slave'])
+        L += [['framer', 'fa', 'be', 'active'], ['frame', 'a']]
+        if sched != 'active':
+            L += [['aux', 'fb'] if sched == 'aux' else (['aux', 'fb', 'as', g.ch(['mine', 'cl'])] if sched == 'moot' else ['start', 'fb'])]
+            L += [['framer', 'fb', 'be', sched] + (['via', g.ch(odd)] if rnd.random() < 0.3 else []),
+                  ['frame', 'a'] + (['via', g.ch(odd)] if rnd.random() < 0.3 else [])]
+        for _ in range(rnd.randint(1, 3)):
+            pth = [g.ch(odd)] + g.ch(rel)
+            L.append(g.ch([['put', '1', 'into'] + pth, ['put', 'f', '1', 'g', '2', 'into'] + pth, ['copy'] + pth + ['into', 'x'],
+                           ['copy', 'x', 'into'] + pth, ['inc'] + pth + ['with', '1'], ['inc', 'x', 'from'] + pth,
+                           ['set'] + pth + ['with', '1'], ['set', 'x', 'from'] + pth, ['go', 'a', 'if'] + pth,
+                           ['go', 'a', 'if'] + pth + ['==', '1'], ['go', 'a', 'if', 'x', '=='] + pth,
+                           ['go', 'a', 'if', 'f', 'in'] + pth + ['==', 'g', 'in'] + pth,
+                           ['go', 'a', 'if'] + pth + ['is', 'updated'], ['go', 'a', 'if'] + pth + ['is', 'changed', 'in', 'frame', 'a'],
+                           ['go', 'a', 'if', 'elapsed', '>='] + pth, ['bid', 'start', 'fa', 'at'] + pth,
+                           ['do', 'doer', 'param', 'via'] + pth, ['do', 'doer', 'param', 'from'] + pth,
+                           ['do', 'doer', 'param', 'for'] + pth, ['do', 'doer', 'param', 'qua'] + pth,
+                           ['do', 'doer', 'param', 'per', 'f', pth[0]], ['do', 'controller', 'pid', 'depth', 'via'] + pth,
+                           ['do', 'doer', 'param', 'via', 'n', 'per', 'f', pth[0], 'for', 'g', 'in'] + pth,
+                           ['aux', 'fb', 'via'] + pth, ['let', 'if'] + pth, ['set', 'elapsed', 'from'] + pth,
+                           ['aux', 'fb', 'if'] + pth, ['loggee'] + pth]))
     else:           # a generated program plus extra structural commands with loose references
         L = Gen(rnd, 0.5).program()
     return L
